@@ -162,7 +162,13 @@ class DefaultHandler(BaseHandler):
             except Exception as e:
                 LOG.error(e)
                 LOG.info('raw message %s', msg)
-                line = json.dumps({'t': timestamp, 'seq': msg_seq, 'type': msg_type, 'msg': repr(msg.get('msg'))})
+                try:
+                    raw = repr(msg.get('msg'))
+                except Exception:
+                    # e.g. an integer too large for str() (a link-state SID
+                    # field of a few thousand octets)
+                    raw = '<message cannot be rendered>'
+                line = json.dumps({'t': timestamp, 'seq': msg_seq, 'type': msg_type, 'msg': raw})
             msg_file.write(line)
             msg_file.write('\n')
             self.msg_sequence[peer.lower()] += 1
